@@ -58,7 +58,7 @@ Proof.
     - apply inv_set; auto.
     - apply cached_set; auto. }
   destruct r1 as [v1|e1]; [|apply Strict; [simpl; auto|exact Hbs]].
-  destruct v1 as [z|fl|b|s|s|l0|dct|f|i|sp l0| |t']; try (apply Strict; [simpl; reflexivity|exact Hbs]).
+  destruct v1 as [z|fl|b|s|s|l0|dct|f|i|sp l0| |t'|cr ci]; try (apply Strict; [simpl; reflexivity|exact Hbs]).
   (* tail return *)
   destruct (get h1 t') as [cl'|] eqn:G'; [|discriminate].
   destruct I1 as (W1 & S1 & Ip1).
